@@ -324,8 +324,8 @@ func bridgeScenario(run *ev.Run, percent float64) *scenario {
 		root = append(root, call(w, "c2", "zcnsc", zcnsc.AddToDelegatePoolFunc, map[string]any{"provider_type": spenum.Authorizer, "provider_id": w.Actors[n].ID}, 1e10, 0, "["+n+",1e10]"))
 	}
 	sc.roots = [][]chainsim.Action{root, root[:3]} // second start state: authorizers registered but unstaked
-	if percent == 1.0 {
-		sc.roots = sc.roots[:1]
+	if percent == 1.0 || !run.Thorough() {
+		sc.roots = sc.roots[:1] // the unstaked start state is explored by the thorough tier of part main
 	}
 	// signature sets: every assignment of {absent, valid, forged} to the three authorizers, with and without an entry of the unregistered key
 	kinds := []string{"", "valid", "forged"}
@@ -340,6 +340,9 @@ func bridgeScenario(run *ev.Run, percent float64) *scenario {
 				x /= 3
 			}
 			if withU {
+				if !run.Thorough() && m%3 != 0 {
+					continue // quick tier: the unregistered key's entry joins every third signature set only
+				}
 				sigs = append(sigs, sigEntry{"u", "valid"})
 			}
 			if len(sigs) == 0 {
@@ -384,6 +387,9 @@ func bridgeScenario(run *ev.Run, percent float64) *scenario {
 	threshold := int(math.RoundToEven(percent * 3))
 	spell := []string{"valid", "upper", "mixed", "miracl"}
 	for i := 0; i < 3; i++ {
+		if i == 2 && !run.Thorough() {
+			break // quick tier: respellings for two of the three authorizers
+		}
 		a, other := fmt.Sprintf("a%d", i), fmt.Sprintf("a%d", (i+1)%3)
 		for _, k := range []int{threshold, threshold + 1} {
 			for _, start := range []int{0, 1} { // two different selections of spellings
